@@ -296,6 +296,106 @@ static void do_det(std::istringstream& in) {
 }
 
 // ---------------------------------------------------------------------------------------------
+// overload coverage: every public overload of parallel_deterministic_reduce / parallel_reduce must behave like the
+// ones the event-log scenarios above use (same split/join term; same in-order value)
+// ---------------------------------------------------------------------------------------------
+static std::string d_leaf(const tbb::blocked_range<long>& r, const std::string& x) {
+    perturb(r.begin());
+    std::string leaf = "[" + std::to_string(r.begin()) + "," + std::to_string(r.end()) + ")";
+    return x.empty() ? leaf : "(R " + x + " " + std::to_string(r.begin()) + " " + std::to_string(r.end()) + ")";
+}
+static std::string d_join(const std::string& a, const std::string& b) {
+    return "(" + (a.empty() ? std::string("I") : a) + " " + (b.empty() ? std::string("I") : b) + ")";
+}
+
+// detov <overload 0..11> <n> <grain> <threads> <seed> <delay>      (term format of `det`)
+//   0 body            1 body,simple        2 body,static        3 body,ctx       4 body,simple,ctx     5 body,static,ctx
+//   6 func            7 func,simple        8 func,static        9 func,ctx      10 func,simple,ctx    11 func,static,ctx
+static void do_detov(std::istringstream& in) {
+    int ov; long n, grain; int threads;
+    if (!(in >> ov >> n >> grain >> threads >> g_seed >> g_delay) || ov < 0 || ov > 11 || grain < 1 || threads < 1 || n < 0) { std::puts("bad-op"); return; }
+    DBody body;
+    std::string val;
+    size_t divisor = 0;
+    reset_log(); g_log_div = false;
+    in_arena(threads, [&] {
+        tbb::blocked_range<long> r(0, n, (size_t)grain);
+        tbb::task_group_context ctx;
+        tbb::static_partitioner sp;
+        if (ov % 3 == 2) { tbb::detail::d1::static_partition_type p(sp); divisor = p.my_divisor; }
+        std::string id;
+        switch (ov) {
+        case 0: tbb::parallel_deterministic_reduce(r, body); break;
+        case 1: tbb::parallel_deterministic_reduce(r, body, tbb::simple_partitioner()); break;
+        case 2: tbb::parallel_deterministic_reduce(r, body, sp); break;
+        case 3: tbb::parallel_deterministic_reduce(r, body, ctx); break;
+        case 4: tbb::parallel_deterministic_reduce(r, body, tbb::simple_partitioner(), ctx); break;
+        case 5: tbb::parallel_deterministic_reduce(r, body, sp, ctx); break;
+        case 6: val = tbb::parallel_deterministic_reduce(r, id, d_leaf, d_join); break;
+        case 7: val = tbb::parallel_deterministic_reduce(r, id, d_leaf, d_join, tbb::simple_partitioner()); break;
+        case 8: val = tbb::parallel_deterministic_reduce(r, id, d_leaf, d_join, sp); break;
+        case 9: val = tbb::parallel_deterministic_reduce(r, id, d_leaf, d_join, ctx); break;
+        case 10: val = tbb::parallel_deterministic_reduce(r, id, d_leaf, d_join, tbb::simple_partitioner(), ctx); break;
+        case 11: val = tbb::parallel_deterministic_reduce(r, id, d_leaf, d_join, sp, ctx); break;
+        }
+    });
+    const std::string& t = ov < 6 ? body.v : val;
+    std::printf("divisor=%zu term=%s\n", divisor, t.empty() ? "I" : t.c_str());
+}
+
+struct VBody {
+    std::vector<long> val;
+    VBody() {}
+    VBody(VBody&, tbb::split) {}
+    void operator()(const tbb::blocked_range<long>& r) { perturb(r.begin()); for (long i = r.begin(); i < r.end(); ++i) val.push_back(i); }
+    void join(VBody& o) { val.insert(val.end(), o.val.begin(), o.val.end()); }
+};
+static std::vector<long> v_leaf(const tbb::blocked_range<long>& r, std::vector<long> x) {
+    perturb(r.begin());
+    for (long i = r.begin(); i < r.end(); ++i) x.push_back(i);
+    return x;
+}
+static std::vector<long> v_join(std::vector<long> a, const std::vector<long>& b) { a.insert(a.end(), b.begin(), b.end()); return a; }
+
+// redov <overload 0..19> <n> <grain> <threads> <seed> <delay>      prints value=<runs>
+//   form = ov / 10 (0 body, 1 functional); within a form: 0 default 1 simple 2 auto 3 static 4 affinity, +5 with a user context
+static void do_redov(std::istringstream& in) {
+    int ov; long n, grain; int threads;
+    if (!(in >> ov >> n >> grain >> threads >> g_seed >> g_delay) || ov < 0 || ov > 19 || grain < 1 || threads < 1 || n < 0) { std::puts("bad-op"); return; }
+    VBody body;
+    std::vector<long> val, id;
+    reset_log(); g_log_div = false;
+    in_arena(threads, [&] {
+        tbb::blocked_range<long> r(0, n, (size_t)grain);
+        tbb::task_group_context ctx;
+        tbb::affinity_partitioner ap;
+        switch (ov) {
+        case 0: tbb::parallel_reduce(r, body); break;
+        case 1: tbb::parallel_reduce(r, body, tbb::simple_partitioner()); break;
+        case 2: tbb::parallel_reduce(r, body, tbb::auto_partitioner()); break;
+        case 3: tbb::parallel_reduce(r, body, tbb::static_partitioner()); break;
+        case 4: tbb::parallel_reduce(r, body, ap); break;
+        case 5: tbb::parallel_reduce(r, body, ctx); break;
+        case 6: tbb::parallel_reduce(r, body, tbb::simple_partitioner(), ctx); break;
+        case 7: tbb::parallel_reduce(r, body, tbb::auto_partitioner(), ctx); break;
+        case 8: tbb::parallel_reduce(r, body, tbb::static_partitioner(), ctx); break;
+        case 9: tbb::parallel_reduce(r, body, ap, ctx); break;
+        case 10: val = tbb::parallel_reduce(r, id, v_leaf, v_join); break;
+        case 11: val = tbb::parallel_reduce(r, id, v_leaf, v_join, tbb::simple_partitioner()); break;
+        case 12: val = tbb::parallel_reduce(r, id, v_leaf, v_join, tbb::auto_partitioner()); break;
+        case 13: val = tbb::parallel_reduce(r, id, v_leaf, v_join, tbb::static_partitioner()); break;
+        case 14: val = tbb::parallel_reduce(r, id, v_leaf, v_join, ap); break;
+        case 15: val = tbb::parallel_reduce(r, id, v_leaf, v_join, ctx); break;
+        case 16: val = tbb::parallel_reduce(r, id, v_leaf, v_join, tbb::simple_partitioner(), ctx); break;
+        case 17: val = tbb::parallel_reduce(r, id, v_leaf, v_join, tbb::auto_partitioner(), ctx); break;
+        case 18: val = tbb::parallel_reduce(r, id, v_leaf, v_join, tbb::static_partitioner(), ctx); break;
+        case 19: val = tbb::parallel_reduce(r, id, v_leaf, v_join, ap, ctx); break;
+        }
+    });
+    std::printf("value=%s\n", runs_of(ov < 10 ? body.val : val).c_str());
+}
+
+// ---------------------------------------------------------------------------------------------
 // parallel_scan
 // ---------------------------------------------------------------------------------------------
 struct SBody {
@@ -482,6 +582,8 @@ int main() {
         g_scenario.fetch_add(1);      // odd: a scenario is running
         if (op == "reduce") do_reduce(in);
         else if (op == "det") do_det(in);
+        else if (op == "detov") do_detov(in);
+        else if (op == "redov") do_redov(in);
         else if (op == "scan") do_scan(in);
         else if (op == "fsteal") do_fsteal(in);
         else if (op == "sort") do_sort(in);
